@@ -38,6 +38,13 @@ mixed do_op (string s, mixed hookarg) {
     ob = a->x_mvs ("/c08/" + w[2]);
     VL ("r mvs " + w[1] + " c08/" + w[2] + " ok " + ROID (ob));
     break;
+  case "hbe":
+  case "hbd":
+    a = master()->get (w[1]);
+    if (!a) { VL ("r " + w[0] + " " + w[1] + " !gone"); break; }
+    a->x_hb (w[0] == "hbe");
+    VL ("r " + w[0] + " " + w[1] + " ok");
+    break;
   case "pr":
     a = master()->get (w[1]);
     if (!a) { VL ("r pr " + w[1] + " " + w[2] + " !gone"); break; }
